@@ -257,6 +257,9 @@ def s_daisy_feature(draw):
         "orientations": draw(st.integers(2, 8)),
         "normalization": draw(st.sampled_from(["l1", "l2", "daisy", None])),
     }
+    if draw(st.integers(0, 2)) == 0:
+        # explicit smoothing scales, one per ring plus the centre (rings = len(sigmas) - 1, consistent with `rings`)
+        kw["sigmas"] = draw(st.lists(gen.q(0.5, 3.0, 8), min_size=kw["rings"] + 1, max_size=kw["rings"] + 1))
     return {"name": "daisy", "kw": kw}
 
 
@@ -309,7 +312,21 @@ def feature_callable(feat, n_channels):
         kw["scale_func"] = SCALE_FUNCS[kw["scale_func"]]
     if feat["name"] == "sum_channels" and kw.get("channels") is not None:
         kw["channels"] = sorted(set(k % n_channels for k in kw["channels"]))
-    return lambda x: f(x, **kw)
+    import copy as _copy
+
+    def call(x):
+        return f(x, **kw)
+
+    # the very same option objects (lists included) are handed to every call made through this callable
+    call.kw, call.kw0 = kw, _copy.deepcopy({k: v for k, v in kw.items() if not callable(v)})
+    return call
+
+
+def check_options_unchanged(ctx, f, tag):
+    """Option values passed to a feature are inputs too: a list given as sigma / sigmas / ring_radii / channels must
+    come back as it went in."""
+    now = {k: v for k, v in f.kw.items() if not callable(v)}
+    ctx.expect(now == f.kw0, "options_argument_modified." + tag, lambda: "passed %r, afterwards %r" % (f.kw0, now))
 
 
 def feat_label(feat):
@@ -464,6 +481,7 @@ def call_both(ctx, feat, c, im, tag):
         ctx.expect(err_i is not None and err_a is not None, "conventions_disagree_on_refusal." + tag,
                    lambda: "image: %r, array: %r" % (err_i, err_a))
         return None
+    check_options_unchanged(ctx, f, tag)
     ctx.expect(isinstance(out_arr, np.ndarray), "array_in_not_array_out." + tag, lambda: type(out_arr).__name__)
     ctx.expect(arr.dtype == arr0.dtype and np.array_equal(arr, arr0, equal_nan=True), "input_array_modified." + tag,
                lambda: describe(arr, arr0))
